@@ -453,25 +453,28 @@ JSON::JSON(const JSON& rhs) : value(nullptr) {
 }
 
 JSON& JSON::operator=(const JSON& rhs) {
+  // rhs may be *this or a value inside *this, so the new value is built
+  // completely before the old one is released
+  decltype(this->value) new_value;
   switch (rhs.value.index()) {
     case 0:
-      this->value = nullptr;
+      new_value = nullptr;
       break;
     case 1:
-      this->value = ::get<1>(rhs.value);
+      new_value = ::get<1>(rhs.value);
       break;
     case 2:
-      this->value = ::get<2>(rhs.value);
+      new_value = ::get<2>(rhs.value);
       break;
     case 3:
-      this->value = ::get<3>(rhs.value);
+      new_value = ::get<3>(rhs.value);
       break;
     case 4:
-      this->value = ::get<4>(rhs.value);
+      new_value = ::get<4>(rhs.value);
       break;
     case 5: {
-      this->value = vector<unique_ptr<JSON>>();
-      auto& v = ::get<5>(this->value);
+      new_value = vector<unique_ptr<JSON>>();
+      auto& v = ::get<5>(new_value);
       v.reserve(rhs.size());
       for (const auto& item : (::get<5>(rhs.value))) {
         v.emplace_back(new JSON(*item));
@@ -479,8 +482,8 @@ JSON& JSON::operator=(const JSON& rhs) {
       break;
     }
     case 6: {
-      this->value = unordered_map<string, unique_ptr<JSON>>();
-      auto& v = ::get<6>(this->value);
+      new_value = unordered_map<string, unique_ptr<JSON>>();
+      auto& v = ::get<6>(new_value);
       for (const auto& it : (::get<6>(rhs.value))) {
         v.emplace(it.first, new JSON(*it.second));
       }
@@ -489,6 +492,7 @@ JSON& JSON::operator=(const JSON& rhs) {
     default:
       throw logic_error("invalid JSON value type");
   }
+  this->value = std::move(new_value);
   return *this;
 }
 
